@@ -10,13 +10,13 @@ LEVEL = "exploration"
 RULE = ("seeded abstract messages over the whole grammar (21 kinds, sampled optional-attribute subsets, 0..5 children); "
         "for each, EVERY single-point perturbation is built (each attribute changed/dropped/added, text changed, each "
         "child at every index changed/dropped/duplicated/swapped/replaced by a part of another kind with the same name and value, "
-        "kind changed to a sibling kind; and edits made IN PLACE (or on a deep copy) after the two messages had been compared and rendered) and compared with == "
+        "kind changed to a sibling kind; a Number child holding the number 0 / 0.0 against the same child without a value; and edits made IN PLACE (or on a deep copy) after the two messages had been compared and rendered) and compared with == "
         "and != against the original, plus an independently rebuilt copy; a pair is non-trivial when the two structural "
         "views differ (perturbation) or are identical (copy); distinct = hash(original, perturbation)")
 ASSUMPTIONS = ["the structural view (vf.ref.view) reads instance attributes only and strips text, except for the white-space-only perturbation where the stored values are compared as they are; '' == absent text, () == absent children, "
                "0 == '0' are not demanded to differ",
                "messages are built through the library constructors, as a user would"]
-REQUIRED_EVENTS = ["pairs_unequal_expected", "pairs_equal_expected", "child_index_perturbations", "child_kind_pairs", "whitespace_only_pairs", "edits_after_a_comparison"]
+REQUIRED_EVENTS = ["pairs_unequal_expected", "pairs_equal_expected", "child_index_perturbations", "child_kind_pairs", "whitespace_only_pairs", "edits_after_a_comparison", "falsy_value_pairs"]
 SHARDED = True
 
 QUICK_SHARDS = 4
@@ -332,6 +332,42 @@ def check_after_comparison(ctx, am, case):
                 return
 
 
+def check_falsy_value(ctx, am, case):
+    """A value that is present but falsy - the number 0 or 0.0 handed to a part by a driver - is a value: a message whose
+    child carries it differs from one whose child carries none (their wire forms differ too)."""
+    ch = am.get("children") or []
+    for i, c in enumerate(ch):
+        if G.PARTS[c["tag"]]["value"] != "Number":
+            continue
+        for zero in (0, 0.0):
+            ma, mb = copy.deepcopy(am), copy.deepcopy(am)
+            ma["children"][i]["text"] = zero
+            mb["children"][i]["text"] = None
+            try:
+                a, b = G.lib_message(ma), G.lib_message(mb)
+                a2 = G.lib_message(copy.deepcopy(ma))
+            except Exception:
+                ctx.count("unconstructible")
+                continue
+            if view_lib(a) == view_lib(b):
+                ctx.count("perturbation_without_view_change")
+                continue
+            ctx.count("pairs_unequal_expected")
+            ctx.count("child_index_perturbations")
+            ctx.count("falsy_value_pairs")
+            ctx.seen("perturbation_kinds", "child-value-zero-vs-absent")
+            n = len(ch)
+            pos = "-last-child" if i == n - 1 else "-non-last-child"
+            if a == b or not (a != b):
+                ctx.violate(f"unequal-compare-equal:child-value-zero-vs-absent{pos}",
+                            f"{am['tag']}: child {i} holds the number {zero!r} in one message and no value in the other and they compare equal",
+                            dict(case, pert=f"child-value-zero-vs-absent@{i}"), {"a": ma, "b": mb})
+                return
+            if not (a == a2) or a != a2:
+                ctx.violate("equal-compare-unequal:zero-valued-child", f"{am['tag']}: rebuilt copy with a child holding {zero!r} compares unequal", case, {"a": ma})
+                return
+
+
 def check_copy(ctx, am, case):
     a = G.lib_message(am)
     b = G.lib_message(copy.deepcopy(am))
@@ -377,6 +413,7 @@ def one_case(ctx, case):
     check_parts(ctx, am, case)
     check_child_kind(ctx, am, case)
     check_after_comparison(ctx, am, case)
+    check_falsy_value(ctx, am, case)
     ctx.case({"am": am}, nontrivial=n > 0, sample={"message": am, "perturbations": n})
 
 
